@@ -28,6 +28,88 @@ type helloCase struct {
 	RecCuts     []int    `json:"rec_cuts"` // cut points inside the handshake message -> one TLS record per piece
 	TCPCuts     []int    `json:"tcp_cuts"` // cut points inside the byte stream -> one server Read segment per piece
 	Regrease    []int    `json:"regrease"` // high nibbles used, in order, for the GREASE values of the second hello
+	Leave       leaveT   `json:"leave"`    // how the client abandons the handshake once its hello is out
+}
+
+// leaveT is the point / manner in which the client abandons the handshake after the
+// complete hello has been written. The zero value is what every case did before the
+// dimension existed: FIN right behind the hello.
+type leaveT struct {
+	Mode string `json:"mode,omitempty"` // "" | fin | close-notify | warning-alert | fatal-alert | mid-record | reset | wrong-flight
+	// Late: first wait until the server has consumed the hello and is reading again (it has
+	// answered with its flight up to ServerHelloDone, or refused); otherwise what the client
+	// does next is queued right behind the hello. reset always waits (an abort discards
+	// queued bytes, the hello would not have been sent).
+	Late bool `json:"late,omitempty"`
+	// Arg: alert description index / number of bytes of the cut record / length of the bogus key exchange
+	Arg int `json:"arg,omitempty"`
+	// RecVerRecords: the records after the hello carry the hello's record-layer version
+	// instead of the hello's legacy version (= the version a serving stack negotiates)
+	RecVerRecords bool `json:"recver_records,omitempty"`
+}
+
+var leaveModes = []string{"fin", "close-notify", "warning-alert", "fatal-alert", "mid-record", "reset", "wrong-flight"}
+
+// alert descriptions a client may send at this point (RFC 5246 7.2)
+var fatalAlerts = []byte{40, 42, 43, 44, 45, 46, 48, 49, 70, 71, 80, 10, 20, 47, 50, 0, 90}
+var warningAlerts = []byte{90, 100, 41, 112, 255}
+
+func (l leaveT) mode() string {
+	if l.Mode == "" {
+		return "fin"
+	}
+	return l.Mode
+}
+
+func (l leaveT) late() bool { return l.Late || l.mode() == "reset" }
+
+func record(typ byte, ver uint16, body []byte) []byte {
+	out := []byte{typ}
+	out = append(out, be16(int(ver))...)
+	out = append(out, be16(len(body))...)
+	return append(out, body...)
+}
+
+func filler(n int) []byte {
+	b := make([]byte, n)
+	for i := range b {
+		b[i] = byte(i*7 + 3)
+	}
+	return b
+}
+
+// cutRecordLen is the size of the record "mid-record" delivers a proper prefix of.
+const cutRecordLen = 5 + 4 + 66
+
+// leaveBytes is what the client still writes after its hello (nothing for fin / reset).
+func (c helloCase) leaveBytes() [][]byte {
+	l := c.Leave
+	ver := c.Ver
+	if l.RecVerRecords {
+		ver = c.RecVer
+	}
+	arg := l.Arg
+	if arg < 0 {
+		arg = -arg
+	}
+	cke := func(n int) []byte {
+		return record(22, ver, append([]byte{16, byte(n >> 16), byte(n >> 8), byte(n)}, filler(n)...))
+	}
+	switch l.mode() {
+	case "close-notify":
+		return [][]byte{record(21, ver, []byte{1, 0})}
+	case "warning-alert":
+		return [][]byte{record(21, ver, []byte{1, warningAlerts[arg%len(warningAlerts)]})}
+	case "fatal-alert":
+		return [][]byte{record(21, ver, []byte{2, fatalAlerts[arg%len(fatalAlerts)]})}
+	case "mid-record":
+		full := cke(66)
+		k := 1 + arg%(len(full)-1) // 1 .. len-1: never the whole record
+		return [][]byte{full[:k]}
+	case "wrong-flight":
+		return [][]byte{cke(arg % 600), record(20, ver, []byte{1}), record(22, ver, filler(40))}
+	}
+	return nil
 }
 
 var sniNames = []string{"example.com", "a.test", "honey.trap.example.org", "Login.Example.COM"}
@@ -461,11 +543,46 @@ func genCase(t *rapid.T, maxCiphers, maxExts int) helloCase {
 			c.TCPCuts = append(c.TCPCuts, o)
 		}
 	}
+	c.Leave = genLeave(t)
 	ng := c.shape().grease
 	for i := 0; i < ng; i++ {
 		c.Regrease = append(c.Regrease, rapid.IntRange(0, 15).Draw(t, "regrease"))
 	}
 	return c
+}
+
+// genLeave draws the abandonment point: plain FIN keeps half of the weight (it is the
+// cheapest history and what the rest of the dimensions were explored with so far).
+func genLeave(t *rapid.T) leaveT {
+	var l leaveT
+	k := rapid.IntRange(0, 2*len(leaveModes)-1).Draw(t, "leave")
+	if k < len(leaveModes) {
+		l.Mode = leaveModes[k]
+	} else {
+		l.Mode = "fin"
+	}
+	l.Late = rapid.Bool().Draw(t, "leave-late")
+	switch l.Mode {
+	case "warning-alert":
+		l.Arg = rapid.IntRange(0, len(warningAlerts)-1).Draw(t, "leave-alert")
+	case "fatal-alert":
+		l.Arg = rapid.IntRange(0, len(fatalAlerts)-1).Draw(t, "leave-alert")
+	case "mid-record":
+		// bytes delivered of a 75-byte record: inside the header, header only, first body bytes, all but one
+		if rapid.Bool().Draw(t, "leave-cut-edge") {
+			l.Arg = rapid.SampledFrom([]int{1, 2, 4, 5, 6, 9, 10, cutRecordLen - 1}).Draw(t, "leave-cut") - 1
+		} else {
+			l.Arg = rapid.IntRange(1, cutRecordLen-1).Draw(t, "leave-cut") - 1
+		}
+	case "wrong-flight":
+		l.Arg = rapid.SampledFrom([]int{0, 1, 2, 33, 66, 130, 258, 514}).Draw(t, "leave-kx")
+	}
+	switch l.Mode {
+	case "fin", "reset":
+	default:
+		l.RecVerRecords = rapid.IntRange(0, 3).Draw(t, "leave-recver") == 0
+	}
+	return l
 }
 
 func (c helloCase) String() string {
